@@ -193,8 +193,16 @@ def build_robot(spec):
                 # "after all injection is done": every component, not only this one, already has its injected attributes
                 everyone = [getattr(getattr(r, n, None), a, None) is getattr(r, a, rt.ABSENT)
                             for n, cc in _spec["components"].items() for a in cc.get("inject", ())]
+                # will_reset_to attributes "start at their declared default": that is what setup() already reads
+                wrong = []
+                for rr in _c.get("resets", ()):
+                    dflt = rt.resolve(rr["default"])
+                    val = getattr(self, rr["attr"], rt.ABSENT)
+                    if not (val is dflt or (type(val) is type(dflt) and val == dflt)):
+                        wrong.append((rr["attr"], repr(val)[:60], repr(dflt)[:60]))
                 rt.cb(f"{self.logger.name}.setup" if _shared else _site,
-                      {"all_components_exist": all(present), "injected_identity": inj, "all_injected": all(everyone)})
+                      {"all_components_exist": all(present), "injected_identity": inj, "all_injected": all(everyone),
+                       "resets_not_at_default": wrong, "n_resets": len(_c.get("resets", ()))})
             body["setup"] = setup
         base_body = {}
         markers = {}
